@@ -774,6 +774,11 @@ class DiHypergraph:
                     raise XGIError("Invalid ebunch format") from e
                 if None in new_edge["in"] or None in new_edge["out"]:
                     raise XGIError("None cannot be a node or edge")
+                # merge the attributes first: a malformed attribute entry must
+                # fail before the edge is stored
+                edge_attr = self._edge_attr_dict_factory()
+                edge_attr.update(attr)
+                edge_attr.update(eattr)
                 self._edge[idx] = new_edge
 
                 for node in tail:
@@ -790,9 +795,7 @@ class DiHypergraph:
                     self._node[node]["in"].add(idx)
                     self._edge[idx]["out"].add(node)
 
-                self._edge_attr[idx] = self._edge_attr_dict_factory()
-                self._edge_attr[idx].update(attr)
-                self._edge_attr[idx].update(eattr)
+                self._edge_attr[idx] = edge_attr
 
                 if format2 or format4:
                     update_uid_counter(self, idx)
